@@ -889,6 +889,14 @@ func judge(res *Result, o outcome, prop string, mu *sync.Mutex) {
 			}
 			return l
 		}
+		if c.isHTTP() && c.FaultKind == "close" && tag == "compare" {
+			// retries of the request that hit the closed connection
+			l := r.lines
+			for len(l) >= 2 && l[len(l)-1] == l[len(l)-2] {
+				l = l[:len(l)-1]
+			}
+			r.lines = l
+		}
 		impl := fmt.Sprintf("exit=%d diag=%v lines=%s", implExit, r.diag(), strings.Join(dropExit(r.lines), " | "))
 		model := fmt.Sprintf("exit=%d diag=%v lines=%s", m.exit, m.diag, strings.Join(dropExit(m.lines), " | "))
 		if r.timedOut {
